@@ -96,11 +96,6 @@ def run_cp(case: dict, d: str, zero_weight_env: bool = False) -> Dict[str, Any]:
     if not window_has_events(rows, annotation, instance):
         res["skip"] = True
         return res, ta, None
-    try:
-        from hta.analyzers.critical_path_analysis import CPGraph
-        CPGraph._add_zero_weight_launch_edges.cache_clear()
-    except Exception:
-        pass
     captured = []
     try:
         from hta.analyzers.critical_path_analysis import CPGraph as _G
